@@ -21,7 +21,7 @@ inductive Val where
 
 inductive Err where
   | keyError | indexError | attributeError | typeError
-  | zeroDiv | valueError | fault
+  | zeroDiv | valueError | fault | overflow
 deriving DecidableEq, Repr
 
 abbrev KVs := List (Key × Val)
